@@ -73,3 +73,22 @@ func TestListItemsAfterBlockInsideListAreKept(t *testing.T) {
 		}
 	}
 }
+
+// C19 / C15 / R15.14: a table without th cells or thead was written with its first row as the header line (a pipe
+// table needs one) and then again as the first data row.
+func TestHTMLHeaderlessTableFirstRowOnce(t *testing.T) {
+	src := `<html><body><table><tr><td>alpha</td><td>beta</td></tr><tr><td>gamma</td><td>delta</td></tr></table></body></html>`
+	r, err := htmldoc.OpenReader(strings.NewReader(src))
+	if err != nil {
+		t.Fatal(err)
+	}
+	md, err := r.Markdown()
+	if err != nil {
+		t.Fatal(err)
+	}
+	for _, w := range []string{"alpha", "beta", "gamma", "delta"} {
+		if n := strings.Count(md, w); n != 1 {
+			t.Errorf("%q appears %d times in %q, want once", w, n, md)
+		}
+	}
+}
